@@ -1127,6 +1127,36 @@ func longRuns(begin func(src, kind string, init []byte, size, spare int) *run, f
 	}
 }
 
+// bigSizes: constructor sizes and growth around the constants a buffer implementation plausibly
+// has (4096, 64 KiB, 128 KiB, 1 MiB) - a handful of histories per run.  Contents stay small, so
+// nothing big is logged; what is observed is Cap() against what was asked for, and that the
+// buffer goes on working after its large storage was Reset / drained.
+func bigSizes(begin func(src, kind string, init []byte, size, spare int) *run, finish func(*run)) {
+	small := []act{{Op: "len"}, {Op: "write", P: fill(5, 0)}, {Op: "rbyte"}, {Op: "unbyte"}, {Op: "reset"},
+		{Op: "wstr", P: utf8Text}, {Op: "rrune"}, {Op: "read", N: 100}, {Op: "wbyte", C: 7}, {Op: "trunc", N: 0},
+		{Op: "write", P: fill(70, 3)}, {Op: "string"}}
+	sizes := []int{4095, 4096, 4097, 65535, 65536, 65537, 128<<10 + 1, 1 << 20, 1<<20 + 1}
+	for _, n := range sizes {
+		if r := begin("big", "sized", nil, n, 0); r != nil {
+			for _, a := range small {
+				r.step(a)
+			}
+			r.step(act{Op: "grow", N: n}) // a second time that much room, on a buffer that was Reset
+			r.step(act{Op: "wbyte", C: 1})
+			finish(r)
+		}
+		// grown past the size by Grow, then Reset / drained, and used again
+		if r := begin("big", []string{"zero", "new"}[n%2], []byte{}, 0, 3); r != nil {
+			for _, a := range []act{{Op: "write", P: fill(9, 0)}, {Op: "rbyte"}, {Op: "grow", N: n}, {Op: "wstr", P: fill(3, 1)},
+				{Op: "reset"}, {Op: "write", P: fill(4, 2)}, {Op: "grow", N: n + 1}, {Op: "read", N: 4}, {Op: "rbyte"},
+				{Op: "write", P: fill(6, 0)}, {Op: "writeto", K: 6, E: "nil"}, {Op: "wrune", R: 0x20ac}, {Op: "bytes"}} {
+				r.step(a)
+			}
+			finish(r)
+		}
+	}
+}
+
 func readPlan(path string) []act {
 	f, err := os.Open(path)
 	if err != nil {
@@ -1238,6 +1268,7 @@ func main() {
 	}
 	sweep(begin, finish)
 	longRuns(begin, finish)
+	bigSizes(begin, finish)
 	ctors := []string{"zero", "zero", "new", "newstr", "sized", "sized"}
 	for i := 0; i < *nhist; i++ {
 		kind := ctors[rng.Intn(len(ctors))]
